@@ -701,7 +701,7 @@ def gen_udp_script(ctx, rng, nmax=8):
     )
     evs = []
     tab = {}
-    n = rng.randint(0, nmax)
+    n = rng.choice([0, 1, 1, 1, 2, 2, 3, 3, 4, 5, 6, nmax])
     for i in range(n):
         r = rng.random()
         if r < 0.18:
@@ -774,7 +774,7 @@ def cases(ctx):
         for it, rot in ((0, 0), (1, 1), (rng.randrange(2), rng.randrange(2))):
             yield "fromwire", [3, pabs, it, rot, wire]
     # ---- receive_udp / udp: random scripts x all option combinations
-    for s in range(ctx.n(14, 220)):
+    for s in range(ctx.n(70, 700)):
         q, dest, evs, tab, v6 = gen_udp_script(ctx, rng)
         af = socket.AF_INET6 if v6 else socket.AF_INET
         timeout = rng.choice([None, 5, 5, 20, 0])
@@ -1070,6 +1070,13 @@ def oracle1(ctx, kind, case, out, flavour):
         F.append({"kind": kind + ":" + what, "what": what, "sig": what, "flavour": flavour, "single": case, "impl": out, **kw})
 
     op = case[0]
+    if op >= 4:
+        head = out[0] if isinstance(out, list) and out else out
+        if isinstance(head, list) and head and isinstance(head[-1], Err):
+            head = head[-1]
+        ctx.count("exchange:%s:%s" % (kind, "err%d" % head.code if isinstance(head, Err) else "ok"))
+        ctx.notes["extra_evaluations"] = ctx.notes.get("extra_evaluations", 0) + 1
+        ctx.notes["extra_nontrivial"] = ctx.notes.get("extra_nontrivial", 0) + 1
     if isinstance(out, Err) and out.code >= 90 and out.code != 98:
         fail("harness-level check failed or unexpected exception: " + out.text)
         return F
